@@ -18,6 +18,9 @@ package main
 //   printf-width-digits  width texts of 19-25 digits: multiples of 2^64, 2^32, 2^16 plus a small offset, leading zeros
 //   json-nesting     arrays / objects / mixed nested 9 999 / 10 000 / 10 001 deep (thorough: all; quick: one
 //                    pair), also as a later value of a stream (prior output kept)
+//   binary-deep-recursion  the REAL BINARY (request kind cli): legal recursions 1000 / 2000 / 4000 / 4095 deep whose
+//                    recursive call sits inside 1 / 4 / 8 / 16 nested expressions complete with the right
+//                    value; the same shapes without a base case end with exit status 1 and a diagnostic
 //
 // A crash or timeout of the implementation is flagged by core.go.
 
@@ -850,6 +853,228 @@ func c20JSON(r *rand.Rand, tier string, emit func(Case)) {
 	}
 }
 
+// ---------------------------------------------------------------- deep recursion in the real binary
+
+// The call-depth limit counts frames; how much Go stack a frame of the interpreted program takes
+// depends on how deeply its call is nested in expressions. The library (and the in-process
+// workers of this harness) run on whatever stack the embedding process allows, the real binary on
+// what cli.Run leaves of Go's default: a stack cap in the binary that "easily" holds 4096 bare
+// frames kills legal recursions (and turns runaway ones into a goroutine dump) as soon as the
+// calls are nested in a few operators. So these cases go through the `cli` request.
+//
+// nesting x depth stays <= 70 000 (16 x 4096 = 65 536), far below the product at which the known
+// finding K1 (about 80 nested operators x 4096 frames) exhausts even the default stack.
+
+type c20PadKind struct {
+	name      string
+	pre, post string // one nesting level around X: pre X post has the value of X
+}
+
+var c20PadKinds = []c20PadKind{
+	{"addition", "(0 + ", ")"},
+	{"array literal + index", "[", "][0]"},
+	{"object literal + member", "{k: ", "}.k"},
+	{"negation", "-(0 - ", ")"},
+	{"multiplication", "(1 * ", ")"},
+	{"call argument", "id(", ")"}, // id is entered after its argument has returned: no frame of it is open at the deepest point
+}
+
+// c20PadExpr nests x inside n levels of one kind; a negative kind rotates through the first five
+func c20PadExpr(kind int, n int, x string) string {
+	for k := 0; k < n; k++ {
+		pk := c20PadKinds[0]
+		if kind < 0 {
+			pk = c20PadKinds[(k-kind)%5]
+		} else {
+			pk = c20PadKinds[kind]
+		}
+		x = pk.pre + x + pk.post
+	}
+	return x
+}
+
+func c20PadName(kind int) string {
+	if kind < 0 {
+		return fmt.Sprintf("mixed, starting with %s", c20PadKinds[(-kind)%5].name)
+	}
+	return c20PadKinds[kind].name
+}
+
+// c20DeepShape: program texts with ‹…› around every expression to be nested and §A§ for the
+// argument of the first call; record says that the argument comes from the input ($)
+type c20DeepShape struct {
+	name    string
+	legal   string
+	runaway string
+	arg     func(frames int) int // the largest argument whose deepest point has at most that many frames open
+	value   func(arg int) string // what the legal form prints between "before" and "after"
+	record  bool
+}
+
+var c20DeepShapes = []c20DeepShape{
+	{"count-down sum in BEGIN",
+		"function s(n) { if (n == 0) { return 0 } return n + ‹s(n - 1)› }\nBEGIN { print \"before\"; print s(§A§); print \"after\" }\n",
+		"function s(n) { return n + ‹s(n + 1)› }\nBEGIN { print \"before\"; print s(0); print \"after\" }\n",
+		func(f int) int { return f - 1 }, func(a int) string { return fmt.Sprint(a * (a + 1) / 2) }, false},
+	{"count-down in a rule body, the value through a variable",
+		"function s(n) { if (n < 1) { return 0 }\n v = 1 + ‹s(n - 1)›\n return v }\n{ print \"before\"; print s($); print \"after\" }\n",
+		"function s(n) { v = 1 + ‹s(n + 1)›\n return v }\n{ print \"before\"; print s($); print \"after\" }\n",
+		func(f int) int { return f - 1 }, func(a int) string { return fmt.Sprint(a) }, true},
+	{"mutual recursion of two functions in END",
+		"function ev(n) { if (n == 0) { return 0 } return 1 + ‹od(n - 1)› }\nfunction od(n) { if (n == 0) { return 0 } return 1 + ‹ev(n - 1)› }\n{ a = $ }\nEND { print \"before\"; print ev(a); print \"after\" }\n",
+		"function ev(n) { return 1 + ‹od(n + 1)› }\nfunction od(n) { return 1 + ‹ev(n + 1)› }\n{ a = $ }\nEND { print \"before\"; print ev(a); print \"after\" }\n",
+		func(f int) int { return f - 1 }, func(a int) string { return fmt.Sprint(a) }, true},
+	{"through a match expression (two frames per level)",
+		"function s(n) { return match (n) { 0 => 0, x => 1 + ‹s(x - 1)› } }\nBEGIN { print \"before\"; print s(§A§); print \"after\" }\n",
+		"function s(n) { return match (n) { x => 1 + ‹s(x + 1)› } }\nBEGIN { print \"before\"; print s(0); print \"after\" }\n",
+		func(f int) int { return f/2 - 1 }, func(a int) string { return fmt.Sprint(a) }, false},
+	{"the call inside a condition, the first call inside a print list",
+		"function s(n) { if (n > 0 && ‹s(n - 1)› >= 0) { return n } return 0 }\nBEGIN { print \"before\"; print \"v\", ‹s(§A§)›, \"w\"; print \"after\" }\n",
+		"function s(n) { if (n >= 0 && ‹s(n + 1)› >= 0) { return n } return 0 }\nBEGIN { print \"before\"; print \"v\", ‹s(0)›, \"w\"; print \"after\" }\n",
+		func(f int) int { return f - 1 }, func(a int) string { return fmt.Sprintf("v %d w", a) }, false},
+	{"a literal built around every call (the seeded witness)",
+		"function s(n) { if (n == 0) { return 0 } return { v: [n + ‹s(n - 1)›] }.v[0] }\nBEGIN { print \"before\"; print s(§A§); print \"after\" }\n",
+		"function s(n) { return { v: [n + ‹s(n + 1)›] }.v[0] }\nBEGIN { print \"before\"; print s(0); print \"after\" }\n",
+		func(f int) int { return f - 1 }, func(a int) string { return fmt.Sprint(a * (a + 1) / 2) }, false},
+}
+
+func c20DeepProg(text string, kind, nest, arg int) string {
+	var sb strings.Builder
+	for {
+		i := strings.Index(text, "‹")
+		if i < 0 {
+			break
+		}
+		j := strings.Index(text, "›")
+		sb.WriteString(text[:i])
+		sb.WriteString(c20PadExpr(kind, nest, text[i+len("‹"):j]))
+		text = text[j+len("›"):]
+	}
+	sb.WriteString(text)
+	return "function id(x) { return x }\n" + strings.ReplaceAll(sb.String(), "§A§", fmt.Sprint(arg))
+}
+
+// c20NoGoReport: whatever happens, the binary's stderr never holds a report of the Go runtime
+func c20NoGoReport(i Resp) string {
+	se := string(i.Bytes("stderr"))
+	for _, bad := range []string{"goroutine", "fatal error", "panic:", "stack overflow", "runtime."} {
+		if strings.Contains(se, bad) {
+			return fmt.Sprintf("the binary died with a report of the Go runtime (stderr contains %q): %s", bad, c07Short(se))
+		}
+	}
+	if i["exit"] != "0" && i["exit"] != "1" {
+		return "exit status " + i["exit"] + " (class " + i["class"] + "): neither success nor a reported error; stderr: " + c07Short(se)
+	}
+	return ""
+}
+
+// c20DeepCase: one run of the binary. frames > 0: the legal form with the deepest point at
+// (at most) that many frames; frames == 0: the form without a base case.
+func c20DeepCase(r *rand.Rand, emit func(Case), s c20DeepShape, kind, nest, frames int) {
+	runaway := frames == 0
+	text, arg := s.legal, s.arg(frames)
+	if runaway {
+		text, arg = s.runaway, 0
+	}
+	prog := c20DeepProg(text, kind, nest, arg)
+	argv := []string{prog}
+	var stdin []byte
+	hasStdin := false
+	var files []CliFile
+	if s.record {
+		doc := []byte(fmt.Sprint(arg))
+		if r.Intn(2) == 0 {
+			files = []CliFile{{Name: "in.json", Data: doc}}
+			argv = append(argv, "in.json")
+		} else {
+			stdin, hasStdin = doc, true
+		}
+	}
+	form := "legal"
+	if runaway {
+		form = "runaway"
+	}
+	fits := frames <= c20Limit
+	meta := metaProg(prog, "probe", fmt.Sprintf("%s, %s: %d frames at the deepest point (0 = no base case; limit %d), every nested expression inside %d levels of %s",
+		form, s.name, frames, c20Limit, nest, c20PadName(kind)), "row", fmt.Sprintf("%s nesting %2d", form, nest), "col", fmt.Sprintf("frames %d", frames))
+	req := CliReq(argv, stdin, hasStdin, files, "")
+	if runaway || !fits {
+		emit(Case{Req: req, Fields: c14CliFields, Meta: meta,
+			Oracle: func(i Resp) string {
+				if w := c20NoGoReport(i); w != "" {
+					return w
+				}
+				if i["exit"] != "1" {
+					return "recursion beyond the limit must end with exit status 1 (the runtime error \"call depth limit exceeded\"), got exit " + i["exit"] + ", stderr: " + c07Short(string(i.Bytes("stderr")))
+				}
+				if out := string(i.Bytes("out")); out != "before\n" {
+					return fmt.Sprintf("the output printed before the call must be kept and nothing else written: got %q", c07Short(out))
+				}
+				if se := string(i.Bytes("stderr")); !strings.Contains(se, "call depth limit exceeded") {
+					return "the diagnostic must name the call depth limit, got: " + c07Short(se)
+				}
+				return ""
+			}, NonTrivial: func(i Resp) bool { return i["exit"] == "1" }})
+		return
+	}
+	wantOut := "before\n" + s.value(arg) + "\nafter\n"
+	emit(Case{Req: req, Fields: c14CliFields, Meta: meta,
+		Oracle: func(i Resp) string {
+			if w := c20NoGoReport(i); w != "" {
+				return w
+			}
+			if i["exit"] != "0" {
+				return fmt.Sprintf("a recursion %d frames deep (limit %d) must work, got exit %s, stderr: %s", frames, c20Limit, i["exit"], c07Short(string(i.Bytes("stderr"))))
+			}
+			if out := string(i.Bytes("out")); out != wantOut {
+				return fmt.Sprintf("output differs: got %q want %q", c07Short(out), c07Short(wantOut))
+			}
+			if i["err"] != "0" {
+				return "a run that works writes nothing to stderr: " + c07Short(string(i.Bytes("stderr")))
+			}
+			return ""
+		}, NonTrivial: func(i Resp) bool { return i["exit"] == "0" }})
+}
+
+func c20BinaryDeep(r *rand.Rand, tier string, emit func(Case)) {
+	nests := []int{1, 4, 8, 16}
+	kinds := []int{0, 1, 2, 3, 4, -1, -3}
+	k := r.Intn(1000)
+	// legal: every depth x nesting; the shape and the kind of expression in rotation
+	// (thorough: every kind incl. a call per level, random shapes). 4096 frames is the limit itself
+	for _, d := range []int{1000, 2000, 4000, 4095, c20Limit} {
+		for _, n := range nests {
+			if tier == "thorough" {
+				for _, kind := range append([]int{5}, kinds...) {
+					c20DeepCase(r, emit, pick(r, c20DeepShapes), kind, n, d)
+				}
+				continue
+			}
+			c20DeepCase(r, emit, c20DeepShapes[k%len(c20DeepShapes)], kinds[k%len(kinds)], n, d)
+			if d >= 4000 {
+				c20DeepCase(r, emit, c20DeepShapes[(k+3)%len(c20DeepShapes)], kinds[(k+4)%len(kinds)], n, d)
+			}
+			k++
+		}
+	}
+	// runaway, and one or two frames beyond the limit: every shape x nesting (0 = the bare call)
+	for si, s := range c20DeepShapes {
+		for ni, n := range []int{0, 1, 4, 8, 16} {
+			if tier == "thorough" {
+				for _, kind := range kinds {
+					c20DeepCase(r, emit, s, kind, n, 0)
+				}
+				c20DeepCase(r, emit, s, pick(r, kinds), n, c20Limit+2)
+				continue
+			}
+			c20DeepCase(r, emit, s, kinds[(k+si+ni)%len(kinds)], n, 0)
+			if (si+ni+k)%3 == 0 {
+				c20DeepCase(r, emit, s, kinds[(k+si+2*ni)%len(kinds)], n, c20Limit+2)
+			}
+		}
+	}
+}
+
 func init() {
 	register(Family{
 		Name: "recursion-limit", Prop: "C20",
@@ -885,5 +1110,10 @@ func init() {
 		Name: "json-nesting", Prop: "C20",
 		Rule: "input nested 10 000 / 10 001 deep (thorough: 9 999 .. 100 000; arrays, objects, mixed), alone, as the second value of a stream and in a second file; a BEGINFILE rule walks down and prints the depth; oracle: works up to 10 000, json error beyond with the prior output kept",
 		Gen:  c20JSON,
+	})
+	register(Family{
+		Name: "binary-deep-recursion", Prop: "C20",
+		Rule: "the real binary (cli request, model compared on exit/out/err): 6 recursion shapes (count-down sum in BEGIN, in a rule body through a variable, mutual in END, through a match expression, inside a condition and a print list, a literal around every call) x depths 1000 / 2000 / 4000 / 4095 / 4096 frames (4098: refused) x 1 / 4 / 8 / 16 nested expressions around every recursive call (additions, array literal + index, object literal + member, negations, multiplications, a mix; thorough: also a call per level) -- nesting x depth <= 70 000, far below finding K1's threshold -- must print the exact value with exit 0 and an empty stderr; the same shapes without a base case (nesting 0 / 1 / 4 / 8 / 16) must keep the prior output, exit with status 1 and name the call depth limit; stderr never holds a Go runtime report (goroutine, fatal error, panic). quick: two shape/kind combinations per depth x nesting in rotation, thorough: all kinds",
+		Gen:  c20BinaryDeep,
 	})
 }
